@@ -122,18 +122,14 @@ class FileModel:
             trace(a[0], *(a[1:3] if len(a) >= 3 else ()))
         elif name == 'get_trace_by_coord':
             trace(a[0], z_index(a[1]), z_index(a[2], stop=True))
-        elif name == 'read_correlated_diagonal':
-            cd = a[0]
-            for il in range(L.n_il):
-                xl = il - cd
-                if 0 <= xl < L.n_xl:
-                    add(['trace_chunk', il, xl, 0, L.n_s])
-        elif name == 'read_anticorrelated_diagonal':
-            ad = a[0]
-            for il in range(L.n_il):
-                xl = ad - il
-                if 0 <= xl < L.n_xl:
-                    add(['trace_chunk', il, xl, 0, L.n_s])
+        elif name in ('read_correlated_diagonal', 'read_anticorrelated_diagonal'):
+            traces = battery.diagonal_traces('c' if name == 'read_correlated_diagonal' else 'a', a[0], L.n_il, L.n_xl)
+            crop = list(a[1:]) + [None] * (4 - len(a[1:]))
+            if crop[0] is not None and crop[1] is not None:
+                traces = traces[crop[0]:crop[1]]
+            z0, z1 = (crop[2], crop[3]) if crop[2] is not None and crop[3] is not None else (0, L.n_s)
+            for il, xl in traces:
+                add(['trace_chunk', il, xl, z0, z1])
         elif name == 'gen_trace_header':
             header(a[0])
         elif name == 'gen_trace_header_all':
